@@ -60,6 +60,14 @@ def method_harness(I, c, which):
     I.obligations = []
     short = c.name.replace("htmltools.", "")
     W = I.ctor("World")
+    if which == "exit":
+        # A4 relies on it: a truthy result of __exit__ would swallow the exception that is leaving the block.  The value of a hook
+        # call is unknown (any callable may be installed), so the condition is on the return statements themselves.
+        import ast as _ast
+        rets = [r for r in _ast.walk(fn) if isinstance(r, _ast.Return) and r.value is not None and not (isinstance(r.value, _ast.Constant) and r.value.value is None)]
+        obs.append(Obligation(f"R:{short}:returns-None", [], z3.BoolVal(not rets), c.name, "R",
+                              "__exit__ returns None on every path (no `return <value>`" + (f"; found `{_ast.unparse(rets[0])}` at line {rets[0].lineno}" if rets else "")
+                              + "), so an exception leaving the block is never swallowed"))
     for pi, p in enumerate(paths):
         tag = f"R:{short}:path{pi}"
         where = f"{c.name} decisions={''.join(map(str, p.decisions))}"
